@@ -42,6 +42,7 @@ var (
 	renameTypeInv = map[[2]string]string{} // (pkg, reference name) -> current name
 	renameVar     = map[[2]string]string{} // (pkg, current name) -> reference name
 	renameVarInv  = map[[2]string]string{} // (pkg, reference name) -> current name
+	renameField   = map[*types.Var]string{} // current struct field -> reference name
 	renameNotes   []string
 )
 
@@ -70,6 +71,17 @@ func curTypeName(pkg, refName string) string {
 		return c
 	}
 	return refName
+}
+
+// fname: the (reference-tree) name of a struct field.
+func fname(v *types.Var) string {
+	if v == nil {
+		return ""
+	}
+	if r, ok := renameField[v]; ok {
+		return r
+	}
+	return v.Name()
 }
 
 // curVarName: the current name of the package-level variable the reference tree calls refName.
@@ -210,6 +222,14 @@ func inventory(p *Program) []invEntry {
 				}
 				sort.Strings(e.callees)
 				out = append(out, e)
+				if st, ok := nt.Underlying().(*types.Struct); ok && st.NumFields() > 0 {
+					se := invEntry{kind: "S", pkg: pk.PkgPath, name: n}
+					for i := 0; i < st.NumFields(); i++ {
+						ft := strings.NewReplacer("\t", " ", ",", ";").Replace(types.TypeString(st.Field(i).Type(), qual))
+						se.callees = append(se.callees, st.Field(i).Name()+":"+ft)
+					}
+					out = append(out, se)
+				}
 			}
 		}
 	}
@@ -314,6 +334,85 @@ func resolveRenames(p *Program, verifDir string) error {
 			renameType[[2]string{c.pkg, c.name}] = r.name
 			renameTypeInv[[2]string{r.pkg, r.name}] = c.name
 			renameNotes = append(renameNotes, fmt.Sprintf("type %s.%s of the reference tree is now named %s (same package, same underlying type / method set)", relOrRoot(r.pkg), r.name, c.name))
+		}
+	}
+	// ---- struct fields: a struct with the same number of fields, the same types position by position, whose names
+	// differ in some positions, has had those fields renamed
+	for _, r := range ref {
+		if r.kind != "S" {
+			continue
+		}
+		curName := curTypeName(r.pkg, r.name)
+		pk := p.ByPath[r.pkg]
+		if pk == nil {
+			continue
+		}
+		obj := pk.Types.Scope().Lookup(curName)
+		if obj == nil {
+			continue
+		}
+		st, ok := obj.Type().Underlying().(*types.Struct)
+		if !ok {
+			continue
+		}
+		qual := func(pk *types.Package) string { return pk.Name() }
+		var curF []string
+		for i := 0; i < st.NumFields(); i++ {
+			curF = append(curF, strings.NewReplacer("\t", " ", ",", ";").Replace(types.TypeString(st.Field(i).Type(), qual)))
+		}
+		refNames := map[string]bool{}
+		var refT []string
+		var refN []string
+		for _, f := range r.callees {
+			i := strings.Index(f, ":")
+			refN = append(refN, f[:i])
+			refT = append(refT, f[i+1:])
+			refNames[f[:i]] = true
+		}
+		curNames := map[string]bool{}
+		for i := 0; i < st.NumFields(); i++ {
+			curNames[st.Field(i).Name()] = true
+		}
+		if len(refN) == st.NumFields() {
+			same := true
+			for i := range refT {
+				if canonSigTypes(refT[i]) != canonSigTypes(curF[i]) {
+					same = false
+				}
+			}
+			if same {
+				for i := range refN {
+					if refN[i] != st.Field(i).Name() && !curNames[refN[i]] && !refNames[st.Field(i).Name()] {
+						renameField[st.Field(i)] = refN[i]
+						renameNotes = append(renameNotes, fmt.Sprintf("field %s.%s.%s of the reference tree is now named %s (same position and type)", relOrRoot(r.pkg), r.name, refN[i], st.Field(i).Name()))
+					}
+				}
+				continue
+			}
+		}
+		// fields added, removed or reordered: a reference field that disappeared and a new field of the same type, both unique
+		for i, rn := range refN {
+			if curNames[rn] {
+				continue
+			}
+			var cand *types.Var
+			n := 0
+			for j := 0; j < st.NumFields(); j++ {
+				if !refNames[st.Field(j).Name()] && canonSigTypes(curF[j]) == canonSigTypes(refT[i]) {
+					cand = st.Field(j)
+					n++
+				}
+			}
+			nRef := 0
+			for k, rn2 := range refN {
+				if !curNames[rn2] && canonSigTypes(refT[k]) == canonSigTypes(refT[i]) {
+					nRef++
+				}
+			}
+			if n == 1 && nRef == 1 {
+				renameField[cand] = rn
+				renameNotes = append(renameNotes, fmt.Sprintf("field %s.%s.%s of the reference tree is now named %s (same type, unique)", relOrRoot(r.pkg), r.name, rn, cand.Name()))
+			}
 		}
 	}
 	// ---- package-level variables: same package, same type, unique
@@ -450,6 +549,21 @@ func resolveRenames(p *Program, verifDir string) error {
 	}
 	sort.Strings(renameNotes)
 	return nil
+}
+
+// canonSigTypes rewrites the names of renamed types inside a type string to their reference names.
+func canonSigTypes(sig string) string {
+	if len(renameType) == 0 {
+		return sig
+	}
+	return identRe.ReplaceAllStringFunc(sig, func(w string) string {
+		for k, v := range renameType {
+			if k[1] == w {
+				return v
+			}
+		}
+		return w
+	})
 }
 
 func relOrRoot(pkg string) string {
